@@ -541,8 +541,9 @@ theorem cut_commutes_store (init : State) (log : Log) (k : Nat) (w : SnapWF (rep
     every row the restorers compute. The discipline excludes: two spellings of one node name (findings
     `snap:case-folding:*`), an instance key re-registered under another service name
     (`snap:checks:ServiceName:stale-online-copy`, `snap:kind-service-names:row-stale-after-service-renamed`;
-    `restore_snapshot_store_counterexample`), a session ID created twice, NUL in node names / session IDs,
-    Raft index 0. Proof: a closure walk over the 21 primitive writes of the model (CV/Proofs/StoreLadderK.lean). -/
+    `restore_snapshot_store_counterexample`), a session created under the ID of a session that is live at that point
+    (`sessNewB`; implied by "no session ID is created twice", `snap_disc_of_distinct_session_ids`), NUL in node names /
+    session IDs, Raft index 0. Proof: a closure walk over the 21 primitive writes of the model (CV/Proofs/StoreLadderK.lean). -/
 theorem snap_wf_reachable_partial (log : Log) (hd : SnapDisc log) : SnapWF (replay State.empty log) :=
   snapWF_reachable log hd
 
@@ -564,6 +565,14 @@ theorem cut_commutes_reachable_partial (log : Log) (hd : SnapDisc log) (k : Nat)
 
 /-- the discipline is closed under prefixes (so the cut may be anywhere) -/
 theorem snap_disc_prefix (log : Log) (hd : SnapDisc log) (k : Nat) : SnapDisc (log.take k) := hd.take k
+
+/-- the session clause of the discipline in syntactic form: NUL-free IDs, none created twice -/
+theorem snap_disc_of_distinct_session_ids (log : Log) (h : NameDisc log) (hnf : ∀ a ∈ sessIds log, NF a)
+    (hnd : ((sessIds log).map lc).Nodup) : SnapDisc log := SnapDisc.ofDistinct h hnf hnd
+
+/-- the history that produces the counterexample state (`store-service-renamed-by-id` in the harness corpus) is
+    excluded by the service clause -/
+theorem rename_log_excluded : ¬ SnapDisc SnapCex.renameLog := SnapCex.renameLog_undisciplined
 
 /-- non-vacuity: a disciplined log with a registration (node, service, bound check), a session, a key written and
     deleted, a prepared query and a deregistration -/
